@@ -15,7 +15,7 @@
    encoding_rs is third party: its UTF-16BE decoder (replacement of unpaired surrogates, BOM
    sniffing of Encoding::decode) is modelled from its documentation (WHATWG Encoding) and tied
    by correspondence.  Definitions only. *)
-From LV Require Import Base.Bytes Model.RangeMap.
+From LV Require Import Base.Bytes Model.RangeMap Gen.CMapC.
 
 Definition two16 : N := 65536.
 Definition two32 : N := 4294967296.
@@ -168,7 +168,7 @@ Definition get (cm : cmap) (code len : N) : option (list N) :=
          end
        end.
 
-Definition REPLACEMENT_CHAR : N := 65533.
+Definition REPLACEMENT_CHAR : N := CMAP_REPLACEMENT_CHAR.   (* ToUnicodeCMap::REPLACEMENT_CHAR, re-read from the source *)
 
 Definition get_or_replacement_char (cm : cmap) (code len : N) : list N :=
   match get cm code len with Some v => v | None => [REPLACEMENT_CHAR] end.
@@ -197,6 +197,7 @@ Definition be_bytes (units : list N) : list N :=
   flat_map (fun it => [(it / 256) mod 256; it mod 256])%N units.
 
 (* encoding_rs UTF-16BE decode_without_bom_handling, to scalar values (the chars of the String) *)
+Definition U_FFFD : N := 65533.   (* the decoder's own replacement character *)
 Definition is_high (u : N) : bool := (55296 <=? u)%N && (u <=? 56319)%N.     (* D800..DBFF *)
 Definition is_low (u : N) : bool := (56320 <=? u)%N && (u <=? 57343)%N.      (* DC00..DFFF *)
 Definition pair_cp (h l : N) : N := (65536 + (h - 55296) * 1024 + (l - 56320))%N.
@@ -208,10 +209,10 @@ Fixpoint utf16_units_decode (us : list N) : list N :=
     if is_high u then
       match r with
       | l :: r' => if is_low l then pair_cp u l :: utf16_units_decode r'
-                   else REPLACEMENT_CHAR :: utf16_units_decode r
-      | [] => [REPLACEMENT_CHAR]
+                   else U_FFFD :: utf16_units_decode r
+      | [] => [U_FFFD]
       end
-    else if is_low u then REPLACEMENT_CHAR :: utf16_units_decode r
+    else if is_low u then U_FFFD :: utf16_units_decode r
     else u :: utf16_units_decode r
   end.
 
@@ -225,7 +226,7 @@ Fixpoint be_units (bs : list N) : list N * bool :=
 
 Definition utf16be_decode (bs : list N) : list N :=
   let '(us, odd) := be_units bs in
-  utf16_units_decode us ++ (if odd then [REPLACEMENT_CHAR] else []).
+  utf16_units_decode us ++ (if odd then [U_FFFD] else []).
 
 Definition bytes_to_string (cm : cmap) (bs : bytes) : list N :=
   utf16be_decode (be_bytes (units_of_text cm bs)).
